@@ -43,6 +43,12 @@ THEOREMS = [
     "Verif.C12.ems_distance_solves_all",
     "Verif.C12.ems_force_of_distance",
     "Verif.C12.ems_distance_of_force",
+    "Verif.C12.twlc_g_published",
+    "Verif.C12.twlc_distance_published",
+    "Verif.C12.coth_guard_error",
+    "Verif.C12.efjc_distance_published",
+    "Verif.C12.coth_negative_guard_dead",
+    "Verif.C12.twlc_force_round_trip",
     "Verif.C12.composite_is_sum",
     "Verif.C12.offset_shifts_independent",
     "Verif.C12.routing_by_name",
@@ -1715,6 +1721,19 @@ def small_scope(rng, quick):
                     yield {"stream": "small-scope", "op": "cubic", "ks": [0, 1, 2],
                            "abc": [float(t) for t in cubic_one_real(sc * r1, sc * re, sc * im)], "roots": [float(sc * r1)]}
     yield {"stream": "small-scope", "op": "cubic", "ks": [3], "abc": [0.0, -1.0, 0.0], "roots": [-1.0, 0.0, 1.0]}
+    # the guard of coth (|2 F Lp / kT| < 500) and the mask of the tWLC coupling (f < Fc, f >= Fc): the force exactly on the
+    # boundary, one ulp and 1e-9 relative to either side, and well inside either branch (parameters inside the box)
+    for kind, args, Fb in (("efjc_distance", [1.05, 16.0, 1125.0, 2.055], 500.0 * 2.055 / (2.0 * 1.05)),
+                           ("efjc_distance", [0.7, 16.0, 750.0, 4.11], None),
+                           ("twlc_distance", [DEFAULTS[x] for x in A8], DEFAULTS["Fc"]),
+                           ("twlc_distance", [40.0, 3.0, 1500.0, 440.0, -637.0, 17.0, 33.0, 4.11], 33.0)):
+        e = ["b", kind, "m"]
+        if Fb is None:
+            xs = [0.05, 1.0, 10.0, 100.0, 400.0, 600.0]
+        else:
+            xs = [0.5 * Fb, Fb * (1 - 1e-9), float(np.nextafter(Fb, 0.0)), Fb, float(np.nextafter(Fb, 1e9)), Fb * (1 + 1e-9),
+                  min(1.5 * Fb, 0.8 * validity_limit(kind, args))]
+        yield chain_case(e, dict(zip(p_names(e), args)), xs, "small-scope", True, boundary=kind)
     # calc_cubic_root on arrays, exhaustive: every vector of length 0..3 over a pool of two Cardano rows and two
     # trigonometric rows (every mask pattern of these lengths), all three selected roots
     pool = [[0.0, 1.0, 1.0], [-1.0, 1.0, -1.0], [0.0, -1.0, 0.0], [-7.0, 14.0, -8.0]]
@@ -2218,6 +2237,9 @@ def extra_coverage(results):
     by_ctor = {}   # closed-form constructor -> branch of calc_cubic_root -> [values, of which inside the relation's domain]
     small_cubic = {"three distinct real roots": 0, "repeated root (det = 0 up to rounding)": 0, "one real root": 0}
     shift = {"cases": 0, "forces": 0, "det>=0 (Cardano)": 0, "det<0 (trigonometric)": 0}
+    guards = {"efjc_distance: cosh/sinh": 0, "efjc_distance: coth guard |x| >= 500 (value 1.0)": 0,
+              "efjc_distance: argument exactly 500 or one ulp from it": 0,
+              "twlc_distance: f < Fc": 0, "twlc_distance: f == Fc": 0, "twlc_distance: f > Fc": 0}
     vec = {"arrays": 0, "rows": 0, "arrays_with_both_branches": 0, "by_length": {}, "small_scope_mask_patterns": set()}
     for r in results:
         c = r["case"]
@@ -2234,6 +2256,15 @@ def extra_coverage(results):
             vec["by_length"][str(len(brs))] = vec["by_length"].get(str(len(brs)), 0) + 1
             if c["stream"] == "small-scope":
                 vec["small_scope_mask_patterns"].add(brs)
+        if c["op"] == "chain" and c["expr"][0] == "b" and c.get("valid") and base_kind(c["expr"]) in ("efjc_distance", "twlc_distance"):
+            a_ = args_of(c["expr"], c["params"])
+            for x in c["xs"]:
+                if base_kind(c["expr"]) == "efjc_distance":
+                    t = 2.0 * x * a_[0] / a_[3]
+                    guards["efjc_distance: " + ("coth guard |x| >= 500 (value 1.0)" if not abs(t) < 500 else "cosh/sinh")] += 1
+                    guards["efjc_distance: argument exactly 500 or one ulp from it"] += abs(t - 500.0) <= 2e-13
+                else:
+                    guards["twlc_distance: " + ("f < Fc" if x < a_[6] else "f == Fc" if x == a_[6] else "f > Fc")] += 1
         if c["op"] == "shift" and r["model"] and r["model"][0].startswith("["):
             shift["cases"] += 1
             shift["forces"] += len(c["xs"])
@@ -2336,6 +2367,7 @@ def extra_coverage(results):
         "cubic_branch_split_calc_cubic_root": {"det>=0 (Cardano)": cubic_br.get("C", 0), "det<0 (trigonometric)": cubic_br.get("T", 0)},
         "selected_root_by_constructor_and_branch [values, inside the domain of the published relation]": by_ctor,
         "calc_cubic_root_small_scope_exhaustive": small_cubic,
+        "guards_and_masks_of_the_explicit_models": guards,
         "marko_siggia_elastic_shift": shift,
         "calc_cubic_root_on_arrays": dict(vec, small_scope_mask_patterns=len(vec["small_scope_mask_patterns"]),
                                           small_scope_mask_patterns_possible=1 + 2 + 4 + 8),
